@@ -326,8 +326,9 @@ func newAggrQuantileFunc(args []Expression) (AggrFunction, error) {
 	if !ok {
 		return nil, NewExecuteError(args[1].GetPos(), "quantile function second parameter type should be float")
 	}
-	if percent > 1.0 {
-		return nil, NewExecuteError(args[1].GetPos(), "quantile function second parameter type should be less than 1")
+	// (written so that NaN is refused as well)
+	if !(percent >= 0.0 && percent <= 1.0) {
+		return nil, NewExecuteError(args[1].GetPos(), "quantile function second parameter should be between 0 and 1")
 	}
 	stream := quantile.NewTargeted(map[float64]float64{
 		percent: 0.0001,
